@@ -277,9 +277,9 @@ fn verify_everywhere(s: &mut Suite, kind: &str, der: &[u8], signer: &KeyPair) {
 		}
 	}
 	let ok = openssl::pkey::PKey::public_key_from_der(&signer.public_key_der()).ok().and_then(|pk| match kind {
-		"cert" => openssl::x509::X509::from_der(der).ok()?.verify(&pk).ok(),
-		"csr" => openssl::x509::X509Req::from_der(der).ok()?.verify(&pk).ok(),
-		_ => openssl::x509::X509Crl::from_der(der).ok()?.verify(&pk).ok(),
+		"cert" => Some(openssl::x509::X509::from_der(der).ok()?.verify(&pk).unwrap_or(false)),
+		"csr" => Some(openssl::x509::X509Req::from_der(der).ok()?.verify(&pk).unwrap_or(false)),
+		_ => Some(openssl::x509::X509Crl::from_der(der).ok()?.verify(&pk).unwrap_or(false)),
 	});
 	match ok {
 		Some(true) => s.rep.count("verified_with_openssl"),
